@@ -112,13 +112,27 @@ def gen_cases(tier, seed):
 class Env(object):
     """the standard small inputs of every stage, built once per case"""
 
-    def __init__(self, work, seed):
+    @classmethod
+    def load(cls, work):
+        """re-open an Env built by another process (same files)"""
+        import pickle
+        self = cls.__new__(cls)
+        d = pickle.loads((pathlib.Path(work) / 'env.pkl').read_bytes())
+        self.__dict__.update(d)
+        return self
+
+    def save(self):
+        import pickle
+        (self.work / 'env.pkl').write_bytes(pickle.dumps(self.__dict__))
+
+    def __init__(self, work, seed, n_leaves=6, n_query=12, n_genes=24):
         self.work = pathlib.Path(work)
         rng = np.random.default_rng(seed)
         self.tmp = self.work / 'tmp'
         self.tmp.mkdir()
-        self.ref = pw.make_reference(rng, self.work, n_levels=3, n_leaves=6,
-                                     n_genes=24, cells_per_leaf=(8, 12))
+        self.ref = pw.make_reference(rng, self.work, n_levels=3,
+                                     n_leaves=n_leaves, n_genes=n_genes,
+                                     cells_per_leaf=(8, 12))
         self.stats = self.work / 'stats.h5'
         self.refm = self.work / 'refm.h5'
         self.pmask = self.work / 'pmask.h5'
@@ -131,7 +145,7 @@ class Env(object):
                                      self.tmp)
         # query = a few reference cells
         self.query = self.work / 'query.h5ad'
-        n = 12
+        n = n_query
         mapworld.write_h5ad(self.query, self.ref.X[:n],
                             [f'q{i}' for i in range(n)], self.ref.genes,
                             encoding='csr')
@@ -148,11 +162,15 @@ class Env(object):
         self.M = M
 
 
-def run_stage(env, stage, out_dir):
+def run_stage(env, stage, out_dir, n_proc=None):
     """
     runs the stage once; returns (exception or None, dict of output paths)
+    n_proc overrides the stage's default worker count
     """
     out_dir.mkdir(parents=True, exist_ok=True)
+
+    def NP(default):
+        return default if n_proc is None else n_proc
     outs = {}
     exc = None
     tb = None
@@ -160,7 +178,7 @@ def run_stage(env, stage, out_dir):
         if stage == 'mapping':
             cfg = pw.mapping_config(out_dir, env.query, env.stats,
                                     env.lookup, chunk_size=3,
-                                    n_processors=5)
+                                    n_processors=NP(5))
             outs['config'] = cfg
             from cell_type_mapper.cli.from_specified_markers import (
                 run_mapping)
@@ -189,7 +207,7 @@ def run_stage(env, stage, out_dir):
                     query_h5ad_path=env.query,
                     precomputed_stats_path=env.stats,
                     marker_gene_cache_path=cache, taxonomy_tree=tree,
-                    n_processors=5, chunk_size=3,
+                    n_processors=NP(5), chunk_size=3,
                     bootstrap_factor_lookup=fl, bootstrap_iteration=5,
                     rng=np.random.default_rng(5), n_assignments=3,
                     normalization='raw', tmp_dir=str(env.tmp), log=None,
@@ -197,24 +215,24 @@ def run_stage(env, stage, out_dir):
             outs['returned'] = res
         elif stage == 'stats':
             outs['stats'] = out_dir / 'stats_out.h5'
-            pw.run_stats(env.ref, outs['stats'], env.tmp, n_processors=3,
-                         rows_at_a_time=4)
+            pw.run_stats(env.ref, outs['stats'], env.tmp,
+                         n_processors=NP(3), rows_at_a_time=4)
         elif stage in ('refmarkers_score', 'refmarkers_transpose'):
             outs['refm'] = out_dir / 'refm_out.h5'
             pw.run_ref_markers(env.stats, outs['refm'], env.tmp,
-                               n_processors=2, add_metadata=False)
+                               n_processors=NP(2), add_metadata=False)
         elif stage == 'pmask':
             outs['pmask'] = out_dir / 'pmask_out.h5'
-            pw.run_p_mask(env.stats, outs['pmask'], env.tmp, n_processors=2,
-                          n_per=8)
+            pw.run_p_mask(env.stats, outs['pmask'], env.tmp,
+                          n_processors=NP(2), n_per=8)
         elif stage == 'pmask_markers':
             outs['refm'] = out_dir / 'refm_out.h5'
             pw.run_markers_from_p_mask(env.stats, env.pmask, outs['refm'],
-                                       env.tmp, n_processors=2,
+                                       env.tmp, n_processors=NP(2),
                                        add_metadata=False)
         elif stage == 'selection':
             lk, _ = pw.run_query_markers(env.refm, env.ref.genes, None,
-                                         env.tmp, n_processors=3)
+                                         env.tmp, n_processors=NP(3))
             outs['returned'] = lk
         elif stage == 'transpose_v2':
             from cell_type_mapper.utils.csc_to_csr_parallel import (
@@ -225,7 +243,7 @@ def run_stage(env, stage, out_dir):
                     h5_path=env.sparse, indices_tag='indices',
                     indptr_tag='indptr', data_tag='data', indices_max=12,
                     max_gb=1.0, output_path=outs['transposed'],
-                    tmp_dir=str(env.tmp), n_processors=3, uint_ok=False)
+                    tmp_dir=str(env.tmp), n_processors=NP(3), uint_ok=False)
     except BaseException as e:
         if isinstance(e, (KeyboardInterrupt, SystemExit)):
             raise
